@@ -16,7 +16,12 @@ SPEC = dict(
           "observed answers of GetAll and of Get for every present commitment (<=4) and 5 absent ones (blob of another namespace, same content "
           "re-labelled, fresh blob, random bytes, empty). Blocks: real go-square builder (square 2..32, subtree-root thresholds 64/8/2/1, 1..9 "
           "namespaces, 1..3 blobs per tx, 25% byte-identical duplicates, 35% share version 1, sizes 1 byte / capacity boundaries / up to 4 rows, "
-          "plain txs), hand-placed layouts (arbitrary padding runs incl. leading ones, any start offset, square 1..16), and malformed getter "
+          "plain txs), namespaces spanning MORE THAN 16 ROWS of a 32-wide square (the share getter fans out over the rows "
+          "of a namespace): real-builder blocks with one blob of 18..26 rows in share version 0 and in version 1, and with 4..7 blobs of one "
+          "namespace (one byte-identical pair) totalling 18..23 rows, and a hand-placed square with a namespace of exactly 16 rows (one blob "
+          "or two around a padding run) followed by one of exactly 17 rows (thorough: 12 of each and a 64-wide square with a blob of 18..40 "
+          "rows); histogram ns_rows_spanned and the ns_feature keys 'namespace-rows>16' / 'blob-rows>16' show the coverage; "
+          "hand-placed layouts (arbitrary padding runs incl. leading ones, any start offset, square 1..16), and malformed getter "
           "answers (12 mutations). Non-trivial: the namespace holds >=2 blobs, or padding shares, or a blob spanning rows, or is absent but inside "
           "a row's range (absence proof), or the answer is malformed; distinct = distinct Coq case term. L3 compares GetAll/Get with the builder's "
           "own record (blobs in square order, start index from the PFB) incl. the share found at the reported index."),
